@@ -259,6 +259,9 @@ func (fr *FuncRun) applyContract(f *Frame, st *State, fc *FuncContract, callee *
 	} else {
 		sig = method.Type().(*types.Signature)
 		pkg = fr.eng.pkgByPath[method.Pkg().Path()]
+		if fc.Extern {
+			pkg = fr.eng.pkgByPath[fc.Pkg]
+		}
 		binds["recv"] = TVal{Val: args[0], Type: sig.Recv().Type()}
 		for i := 0; i < sig.Params().Len() && i+1 < len(args); i++ {
 			tv := TVal{Val: args[i+1], Type: sig.Params().At(i).Type()}
@@ -746,6 +749,42 @@ func (e *Engine) VerifyFunction(fn *ssa.Function) *FuncResult {
 	// preconditions
 	ctx := &EvalCtx{fr: fr, f: f, st: st, old: f.entry, pkg: e.pkgOf(fn), binds: fr.paramBinds(fn, f.params)}
 	var reqs []string
+	// conventions: context parameters are non-nil; a captured receiver of a closure is valid like a receiver
+	for i, p := range fn.Params {
+		if p.Type().String() == "context.Context" {
+			fr.assume(st, not(eq("(i-typ "+f.params[i].T+")", "0")))
+			fr.assumed["convention: context.Context parameters are non-nil"] = true
+		}
+	}
+	for _, fv := range fn.FreeVars {
+		pt, ok := fv.Type().(*types.Pointer)
+		if !ok {
+			continue
+		}
+		if fv.Name() == "ctx" && pt.Elem().String() == "context.Context" {
+			v := fr.load(st, CellAddr{Key: cellKey{f.id, fv}}, pt.Elem())
+			if isStaticFreeVar(fv) {
+				fr.assume(st, not(eq("(i-typ "+v.T+")", "0")))
+			}
+			continue
+		}
+		ppt, ok := pt.Elem().Underlying().(*types.Pointer)
+		if !ok || !isStaticFreeVar(fv) {
+			continue
+		}
+		if named := namedOf(ppt.Elem()); named != nil {
+			if tc := e.contracts.lookupType(named); tc != nil && len(tc.Valid) > 0 {
+				v := fr.load(st, CellAddr{Key: cellKey{f.id, fv}}, pt.Elem())
+				fr.assume(st, not(eq(v.T, "0")))
+				for _, vc := range tc.Valid {
+					self := TVal{Val: v, Type: pt.Elem()}
+					vctx := &EvalCtx{fr: fr, st: st, old: nil, pkg: e.pkgByPath[tc.Pkg], binds: map[string]TVal{"self": self, "s": self}}
+					fr.assume(st, fr.evalClause(vctx, vc))
+				}
+				fr.assumed["validity of captured "+fv.Name()+" ("+trimPath(tc.Pkg)+"."+tc.Name+", established by its constructor)"] = true
+			}
+		}
+	}
 	if recv := fn.Signature.Recv(); recv != nil && len(fn.Params) > 0 {
 		if pt, ok := recv.Type().Underlying().(*types.Pointer); ok {
 			if named := namedOf(pt.Elem()); named != nil {
